@@ -204,6 +204,66 @@ theorem queued_jobs_wait_behind_work_partial (c : CaseCfg) (steps : List Step) (
       exact hcurr heq
     · exact Or.inl hh
 
+/-! ## TTL expiry at the two dequeue points -/
+
+/-- (worker dequeue, `get_next_non_expired_job`) whatever the worker's queue holds, the job handed on is not
+expired at that instant, it comes from the queue, and the queue that remains is a suffix of the old one (only the
+expired jobs in front of it were removed — each reported `TtlExpired`, see `conservation`). -/
+theorem worker_dequeue_skips_expired (h : Option Nat) (mq : List Job) (pend : List Nat) (e : Env) (j : Job)
+    (hj : (getNextNonExpired h mq pend e).1 = some j) :
+    j.expired e.now = false ∧ ∃ skipped, mq = skipped ++ j :: (getNextNonExpired h mq pend e).2.1 ∧
+      ∀ x ∈ skipped, x.expired e.now = true := by
+  induction mq generalizing pend e with
+  | nil => simp [getNextNonExpired] at hj
+  | cons x rest ih =>
+    unfold getNextNonExpired at hj ⊢
+    by_cases hx : x.expired e.now = true
+    · simp only [hx, Bool.not_true, Bool.false_eq_true, if_false] at hj ⊢
+      have hnow : (e.discard h .ttlExpired x).now = e.now := rfl
+      obtain ⟨h1, sk, h2, h3⟩ := ih (pend.erase x.key) (e.discard h .ttlExpired x) hj
+      rw [hnow] at h1 h3
+      refine ⟨h1, x :: sk, by rw [List.cons_append, ← h2], ?_⟩
+      intro y hy
+      rcases List.mem_cons.mp hy with hy | hy
+      · rw [hy]; exact hx
+      · exact h3 y hy
+    · have hx' : x.expired e.now = false := by simpa using hx
+      simp only [hx', Bool.not_false, if_true, Option.some.injEq] at hj ⊢
+      subst hj
+      exact ⟨hx', [], rfl, fun _ hy => by cases hy⟩
+
+/-- (factory dequeue, first loop of `try_route_next_active_job`) after the expired jobs at the head have been
+discarded, the job at the head of the factory queue — the one the routing loop hands to the router next — is not
+expired, for both queue types. -/
+theorem factory_dequeue_skips_expired (fuel : Nat) (w : W) (hf : w.queue.length < fuel) (j : Job)
+    (hj : qPeek (W.dropExpiredHead fuel w).cfg (W.dropExpiredHead fuel w).queue = some j) :
+    j.expired (W.dropExpiredHead fuel w).env.now = false := by
+  induction fuel generalizing w with
+  | zero => omega
+  | succ fuel ih =>
+    unfold W.dropExpiredHead at hj ⊢
+    cases hpk : qPeek w.cfg w.queue with
+    | none => simp only [hpk] at hj ⊢; cases hj
+    | some x =>
+      simp only [hpk] at hj ⊢
+      by_cases hx : x.expired w.env.now = true
+      · simp only [hx, if_true] at hj ⊢
+        cases hp : qPopFront w.cfg w.queue with
+        | none =>
+          exfalso
+          have := qPopFront_none hp
+          exact qPeek_some_ne_nil hpk this
+        | some xq =>
+          obtain ⟨x', q'⟩ := xq
+          simp only [hp] at hj ⊢
+          have hlen := popByPrio_length (show popByPrio w.cfg prioUp w.queue = some (x', q') from hp)
+          exact ih _ (by simp only; omega) hj
+      · have hx' : x.expired w.env.now = false := by simpa using hx
+        simp only [hx', Bool.false_eq_true, if_false] at hj ⊢
+        rw [hpk] at hj
+        simp only [Option.some.injEq] at hj
+        subst hj; exact hx'
+
 /-! ## The factory never reaches its `panic!` -/
 
 /-- (`RouteResult::Backlog` with a targeted worker, `try_route_next_active_job`: `panic!`, which would kill the
@@ -397,6 +457,8 @@ end C13
 #print axioms C13.one_job_lost_per_death_partial
 #print axioms C13.stopped_workers_hold_nothing_partial
 #print axioms C13.queued_jobs_wait_behind_work_partial
+#print axioms C13.worker_dequeue_skips_expired
+#print axioms C13.factory_dequeue_skips_expired
 #print axioms C13.never_panics
 #print axioms C13.targeted_route_never_backlogs
 #print axioms C13.die_loses_only_held
